@@ -36,7 +36,10 @@ LEVEL_TEXT = ("Theorems (Lean 4, any linearly ordered field) about the executabl
               "description (distinct names, a valid topological order, existing parents, roots = Sources, one PMux, loads childless): the breadth-first "
               "walk of save() lists each component outside the PMux subtree exactly once below its one Source with its parent first, the PMux block comes "
               "after all its inputs with exactly its descendants, the fuel of the walk suffices (`saveable_of_wf`, `layout_of_wf`), hence "
-              "`roundtrip_wf_partial`: from_file(save(S)) is S, partial ONLY through the reserved name `system` (F15); the version gate refuses exactly the newer N.N.N versions. "
+              "`roundtrip_wf_partial`: from_file(save(S)) is S, partial ONLY through the reserved name `system` (F15); Props/C12Solve carries it through to the results: for a well-formed description the reloaded system's solve() "
+              "succeeds iff the original's does and returns the same rows up to order with equal total / average rows, and the same rail report up to row order "
+              "(`reload_same_table_partial`, `reload_same_rail_rep_partial`; components that differ only in non-applicable limits are shown law-equal: `compEquiv_laws`; "
+              "the extra hypothesis that a 2-D table's value does not depend on the triangulation diagonal is a model artefact - in scipy the diagonal is a function of the data); the version gate refuses exactly the newer N.N.N versions. "
               "The full statement `C12_full` is refuted on a concrete witness (`full_fails_reserved_name`: a Source named \"system\", "
               "finding F15). Model tied to the code on every run: the saved JSON of hundreds of random systems must equal the model's "
               "document, and the reloaded system's second save and params(limits=True) must equal the model's from_file.")
@@ -63,8 +66,14 @@ THEOREMS = [
     "SysLoss.C12.wf_full_fails_reserved_name", "SysLoss.C12.bfsAux_inv", "SysLoss.C12.bfsAux_complete", "SysLoss.C12.bfs_entry",
     "SysLoss.C12.bfs_closed", "SysLoss.C12.entriesOK_bfsAux", "SysLoss.C12.reach_unique", "SysLoss.C12.srcBlocks_complete",
     "SysLoss.C12.muxBlock_ok", "SysLoss.C12.eSys_wf", "SysLoss.C12.wSys_wf",
+    # Props/C12Solve: the reloaded system solves to the same table / rail report (bridge SysEquiv -> C16R.Iso up to law-equal components)
+    "SysLoss.C12.compEquiv_laws", "SysLoss.C12.SameLaws.solve_eq", "SysLoss.C12.SameLaws.tableWF", "SysLoss.C12.IsoUpTo.solve",
+    "SysLoss.C12.IsoUpTo.solve_error", "SysLoss.C12.IsoUpTo.rail_rep", "SysLoss.C12.perm_iso", "SysLoss.C12.sameLaws_of_nodeAgree",
+    "SysLoss.C12.toSSys_tableWF", "SysLoss.C12.toSSys_railsUnique", "SysLoss.C12.sysEquiv_isoUpTo_partial", "SysLoss.C12.sysEquiv_iso_partial",
+    "SysLoss.C12.sysEquiv_same_table_partial", "SysLoss.C12.sysEquiv_same_error_partial", "SysLoss.C12.sysEquiv_same_rail_rep_partial",
+    "SysLoss.C12.roundtrip_explicit", "SysLoss.C12.reload_same_table_partial", "SysLoss.C12.reload_same_rail_rep_partial",
 ]
-MODULES = ["SysLoss.Props.C12", "SysLoss.Props.C12Layout"]
+MODULES = ["SysLoss.Props.C12", "SysLoss.Props.C12Layout", "SysLoss.Props.C12Solve"]
 RULE = ("random power trees from gen.gen_system (1-3 sources, <=24 nodes, all 11 kinds, tabulated eff/vdrop/ig 1-D and 2-D, PMux rs lists, "
         "deprecated LinReg iq, loss flags, rt, limits on applicable keys, groups, rails, system phases, component phase configurations), "
         "saved to and reloaded from real files in a temporary directory; plus streams: version strings below/equal/above, documents with "
